@@ -95,6 +95,17 @@ class Taint(object):
                     and v.args[0].value == '#' and isinstance(v.func.value, ast.Name) and isinstance(s.targets[0], ast.Name):
                 st[s.targets[0].id] = {'pos:' + v.func.value.id}
                 return st
+            # head, sep, tail = v.partition('#'): the head holds no comment sign
+            if isinstance(v, ast.Call) and call_name(v) == 'partition' and len(v.args) == 1 and isinstance(v.args[0], ast.Constant) \
+                    and v.args[0].value == '#' and isinstance(v.func, ast.Attribute) and len(s.targets) == 1 and \
+                    isinstance(s.targets[0], (ast.Tuple, ast.List)) and len(s.targets[0].elts) == 3 and \
+                    all(isinstance(t_, ast.Name) for t_ in s.targets[0].elts):
+                src_tags = self.expr(v.func.value, st) - {STRIPPED}
+                names_ = [t_.id for t_ in s.targets[0].elts]
+                for nm in names_[1:]:
+                    st[nm] = set(src_tags)
+                st[names_[0]] = {CLEAN}
+                return st
             tags = self.expr(v, st) - {STRIPPED}
             if isinstance(v, ast.Call) and call_name(v) == 'strip' and not v.args and isinstance(v.func, ast.Attribute):
                 tags = tags | {STRIPPED}
@@ -449,9 +460,11 @@ def run(prog, check):
         return None
     fmt_ok = False
     n_templates = 0
-    for fn in prog.all_functions():
-        if fn.cls is None or fn.cls.name != 'Model':
+    for fn_raw_ in prog.all_functions():
+        if fn_raw_.cls is None or fn_raw_.cls.name != 'Model':
             continue
+        # with the private helpers in place: the template may be built by one step and applied by the next
+        fn = flatten(prog, fn_raw_)
         env_ = {}
         uses = []
         for st_ in ast.walk(fn.node):
